@@ -32,8 +32,8 @@ CHECKS["C04"] = NS(
         "bits outside {2,4} are outside the property's domain",
     ],
     PLAN={
-        "quick": [("grid", 4, {"maxR": 64}), ("bytes", 3, {"n": 400}), ("values", 4, {"n": 400}), ("ops", 5, {"n": 500})],
-        "thorough": [("grid", 6, {"maxR": 260}), ("bytes", 3, {"n": 12000}), ("values", 3, {"n": 12000}), ("ops", 4, {"n": 15000})],
+        "quick": [("grid", 4, {"maxR": 64}), ("bytes", 3, {"n": 400}), ("values", 3, {"n": 530}), ("ops", 4, {"n": 620}), ("order", 2, {"n": 150})],
+        "thorough": [("grid", 6, {"maxR": 260}), ("bytes", 3, {"n": 12000}), ("values", 3, {"n": 12000}), ("ops", 4, {"n": 15000}), ("order", 4, {"n": 5000})],
     },
 )
 
@@ -121,7 +121,7 @@ CHECKS["C03"] = NS(
         "groups whose range reaches the dtype's maximum (known finding D04) are not judged here",
         "qmax of the weight optimizer is 2^(bits-1)-1 = 127 for float8 as well (its own definition); absmax_scale uses finfo.max",
     ],
-    PLAN={"quick": [("scales", 16, {"n": 500})], "thorough": [("scales", 16, {"n": 12000})]},
+    PLAN={"quick": [("scales", 12, {"n": 660}), ("order", 4, {"n": 150})], "thorough": [("scales", 16, {"n": 12000}), ("order", 8, {"n": 5000})]},
 )
 
 CHECKS["C16"] = NS(
